@@ -438,7 +438,7 @@ func unescapeString(buf []byte) int {
 				v3 := hexToInt[char(src, 4)]
 				v4 := hexToInt[char(src, 5)]
 				code := rune((v1 << 12) | (v2 << 8) | (v3 << 4) | v4)
-				if code >= 0xd800 && code < 0xdc00 && uintptr(unsafeAdd(src, 11)) < uintptr(end) {
+				if code >= 0xd800 && code < 0xdc00 && uintptr(end)-uintptr(src) > 11 {
 					if char(src, 6) == '\\' && char(src, 7) == 'u' {
 						v1 := hexToInt[char(src, 8)]
 						v2 := hexToInt[char(src, 9)]
